@@ -58,7 +58,9 @@ def cases(ctx):
         yield c
 
 
-def make_func(kind, agg, inp, rma):
+def make_func(kind, agg, inp, rma, n_rows=None):
+    """Aggregate-function object built through the public constructors only.  n_rows is passed as N to
+    a count function (needed when the cube has no dimension to take the row count from)."""
     from catii import ffuncs, xfuncs
 
     f = gen.fact_arg(inp["fact"])
@@ -68,7 +70,7 @@ def make_func(kind, agg, inp, rma):
     mod = ffuncs if kind == "ccube" else xfuncs
     pre = "ffunc_" if kind == "ccube" else "xfunc_"
     if agg == "count":
-        fn = getattr(mod, pre + "count")(w, None, ig, rma)
+        fn = getattr(mod, pre + "count")(w, n_rows, ig, rma)
         args = {"weights": w}
     elif agg in ("min", "max"):
         fn = getattr(mod, pre + agg)(f, ig, rma)
@@ -142,12 +144,14 @@ def judge(ctx, case):
 
     rma = gen.pick(numpy.random.default_rng(case["pseed"]), [NaN, (0, False), NaN])
     funcs = []
+    rmas = []
     missing_rows = False
     for j, (agg, inp) in enumerate(zip(case["aggs"], case["inputs"])):
         r = aggr.nat_for(inp) if inp["fact"]["values"].dtype.kind == "M" and not isinstance(rma, tuple) else rma
         if isinstance(r, tuple) and inp["fact"]["values"].dtype.kind == "M":
             r = (numpy.datetime64("1999-01-01", "s"), False)
-        fn, args = make_func(kind, agg, inp, r)
+        fn, args = make_func(kind, agg, inp, r, None if dense else n)
+        rmas.append(r)
         for k, v in args.items():
             w.add("%s[%d:%s]" % (k, j, agg), v)
         funcs.append(fn)
@@ -157,15 +161,6 @@ def judge(ctx, case):
     ctx.count("calls:construct", len(funcs))
     if not w.check("aggregate-function construction"):
         return
-    if kind == "ccube" and not dense:
-        # a dimensionless index cube needs N for a count; give every count one through weights-free N
-        for fn in funcs:
-            if hasattr(fn, "N") and fn.N is None:
-                fn.N = n
-    if kind == "xcube" and not dense:
-        for fn in funcs:
-            if hasattr(fn, "N") and fn.N is None:
-                fn.N = n
     feat = "%s:%s" % (kind, "+".join(sorted(set(case["aggs"]))))
     ctx.evaluation({"d": dense, "k": kind, "a": case["aggs"], "i": case["inputs"]}, missing_rows)
 
@@ -217,8 +212,7 @@ def judge(ctx, case):
     try_other = dense and all(not hasattr(f, "N") or True for f in funcs)
     if try_other:
         on_other = [freeze(r) for r in other.calculate(funcs)]
-        fresh_funcs = [make_func(kind, agg, inp, fn.return_missing_as)[0]
-                       for agg, inp, fn in zip(case["aggs"], case["inputs"], funcs)]
+        fresh_funcs = [make_func(kind, agg, inp, r_)[0] for agg, inp, r_ in zip(case["aggs"], case["inputs"], rmas)]
         want_other = other.calculate(fresh_funcs)
         if not all(same(a, b) for a, b in zip(on_other, want_other)):
             ctx.violation("reused-object-differs-on-other-cube:%s" % feat,
@@ -237,7 +231,8 @@ def judge(ctx, case):
                   if not (a == "count" and inp["weights"]["kind"] in ("none", "scalar"))]
         if usable:
             zr = [freeze(r) for r in zero.calculate(usable)]
-            fresh_z = [make_func(kind, a, inp, f.return_missing_as)[0] for f, a, inp in zip(funcs, case["aggs"], case["inputs"]) if f in usable]
+            fresh_z = [make_func(kind, a, inp, r_)[0] for f, a, inp, r_ in zip(funcs, case["aggs"], case["inputs"], rmas)
+                       if any(f is u for u in usable)]
             want_z = cls([]).calculate(fresh_z)
             ctx.count("reuse_zero_dim_cube:checked")
             if not all(same(a, b) for a, b in zip(zr, want_z)):
@@ -297,8 +292,8 @@ def judge(ctx, case):
             cell = tuple(int(i) for i in numpy.unravel_index(int(f), a.shape))
             groups.setdefault((int(present[int(r2.integers(0, len(present)))]),) + cell[1:], []).append(cell[0])
         dims[d].update({k: numpy.array(sorted(set(v)), dtype=numpy.uint32) for k, v in groups.items()})
-        f1 = [make_func(kind, agg, inp, fn.return_missing_as)[0] for agg, inp, fn in zip(case["aggs"], case["inputs"], funcs)]
-        f2 = [make_func(kind, agg, inp, fn.return_missing_as)[0] for agg, inp, fn in zip(case["aggs"], case["inputs"], funcs)]
+        f1 = [make_func(kind, agg, inp, r_)[0] for agg, inp, r_ in zip(case["aggs"], case["inputs"], rmas)]
+        f2 = [make_func(kind, agg, inp, r_)[0] for agg, inp, r_ in zip(case["aggs"], case["inputs"], rmas)]
         got = cls(dims, interacting_shape=shp).calculate(f1)
         want = cls([x.copy() for x in dims], interacting_shape=shp).calculate(f2)
         ctx.count("state_on_index_objects:checked")
@@ -334,8 +329,9 @@ def reuse_other_rowcount(ctx, case, kind, cls):
     c1, c2 = cube_of(n1), cube_of(n2)
     for w in (None, float(gen.pick(rng, [0.5, 2.0]))):
         for rma in (NaN, (0, False)):
-            f = getattr(mod, pre + "count")(w, None, bool(rng.random() < 0.5), rma)
-            g = getattr(mod, pre + "count")(w, None, f.ignore_missing, rma)
+            ig_ = bool(rng.random() < 0.5)
+            f = getattr(mod, pre + "count")(w, None, ig_, rma)
+            g = getattr(mod, pre + "count")(w, None, ig_, rma)
             r1 = freeze(c1.calculate([f])[0])
             r2 = c2.calculate([f])[0]
             want2 = c2.calculate([g])[0]
